@@ -235,7 +235,21 @@ class Glue:
             tb += f"        \"{bname}\" => Some(vec![" + ", ".join(
                 f"(\"{n}\", {path}::{n}.bits() as u64)" for n, _ in tables["bitflags"].get(bname, [])) + "]),\n"
         tb += "        _ => None,\n    }\n}\n"
-        ad = ""
+        from pymodel import show as _show
+        mr = "pub fn min_response(variant: &str) -> Option<ctap_types::ctap2::Response> {\n    match variant {\n"
+        for variant, payload in tables["response_variants"]:
+            if payload is None:
+                mr += f"        \"{variant}\" => build_response(\"{variant}\", None),\n"
+            else:
+                mv = _show(self.s.min_value({"named": payload}))
+                mr += f"        \"{variant}\" => build_response(\"{variant}\", V::parse(\"{mv}\").as_ref()),\n"
+        mr += "        _ => None,\n    }\n}\n"
+        ad = mr
+        meth = {"MakeCredential": "make_credential", "GetAssertion": "get_assertion", "ClientPin": "client_pin",
+                "CredentialManagement": "credential_management", "LargeBlobs": "large_blobs"}
+        for variant, payload in tables["request_variants"]:
+            if payload and payload != "vendor" and variant in meth:
+                ad += (f"pub fn dump_payload_{meth[variant]}(x: &{rust_path(payload)}) -> V {{ dump_{mangle(payload)}(x) }}\n")
         for fl in ("MC", "GA"):
             k = sj["roles"].get("adExt" + fl)
             if k:
